@@ -197,6 +197,41 @@ class Seams:
 
         self._patch(svmod, "convolve_operator", convolve_operator)
 
+        # --- process-global N3LO grid memo: eviction site + reach probe ------------------
+        try:
+            import yadism.coefficient_functions.heavy.f2_nc as hf2
+            import yadism.coefficient_functions.heavy.fl_nc as hfl
+            import yadism.coefficient_functions.heavy.n3lo as n3lo
+
+            def make_interp(orig):
+                def interpolator(coeff, nf, variation):
+                    d = sched.consult("n3lo_memo")
+                    if d is not None:
+                        seams.apply_eviction(d["do"])
+                    if not sched.quiet:
+                        try:
+                            name = f"{coeff}_nf{int(nf)}_var{int(variation)}.npy"
+                            if name in n3lo.interpolators:
+                                seams.probes["n3lo_memo_hit"] += 1
+                                if seams.n3lo_filled_by.get(name) not in (None, sched.op_index):
+                                    seams.probes["n3lo_memo_hit_filled_by_earlier_op"] += 1
+                            else:
+                                seams.probes["n3lo_memo_miss"] += 1
+                                seams.n3lo_filled_by[name] = sched.op_index
+                                if n3lo.interpolators:
+                                    seams.probes["n3lo_memo_miss_while_other_keys_present"] += 1
+                        except Exception:  # noqa: BLE001
+                            pass
+                    return orig(coeff, nf, variation)
+                return interpolator
+
+            self.n3lo_filled_by = {}
+            for mod in (hf2, hfl):
+                if hasattr(mod, "interpolator"):
+                    self._patch(mod, "interpolator", make_interp(mod.interpolator))
+        except Exception:  # noqa: BLE001 - probe/seam degrades to nothing if the code is refactored
+            self.probes["seam_degraded_n3lo"] += 1
+
         # --- clocks ---------------------------------------------------------------
         self._patch(runner_mod, "time", self.clock)
         self._patch(svmod, "time", self.clock)
@@ -235,7 +270,7 @@ class Seams:
                 runner.configs.managers["sv_manager"].operators.clear()
             except (AttributeError, KeyError, TypeError):
                 self.probes["seam_degraded_sv_memo"] += 1
-        elif do == "evict_global_memo":
+        elif do in ("evict_global_memo", "evict_n3lo_memo"):
             try:
                 n3lo.interpolators.clear()
             except AttributeError:
